@@ -247,7 +247,7 @@ where
         match ctx {
             Ctx::Single => save_full(c, ver, &T::from_val(&vals[0]), w),
             Ctx::Vec => save_lite(c, ver, &many::<T>(vals), w),
-            Ctx::VecDeque => save_lite(c, ver, &many::<T>(vals).into_iter().collect::<std::collections::VecDeque<T>>(), w),
+            Ctx::VecDeque => save_lite(c, ver, &crate::probe::make_deque(many::<T>(vals)), w),
             Ctx::Array0 => save_lite::<[T; 0]>(c, ver, &[], w),
             Ctx::Array3 => {
                 let a: [T; 3] = match many::<T>(vals).try_into() {
